@@ -36,6 +36,10 @@ def reader_oracle(fn):
         rejected = s.endswith(run.A_REJECTS)
         if rejected:
             s = s[:-len(run.A_REJECTS)]
+        if ' || ' in s:
+            # two readers sharing the record sets: each is judged on its own operations against its own input
+            parts = canon(s).split(' || ')
+            return oracles.two_reader_oracle(case, toks, parse_spec(case['fmt'], parts[0]), parse_spec(case['fmt'], parts[1]))
         v = fn(case, toks, log, parse_spec(case['fmt'], canon(s)))
         if rejected and LEAN_A_ORACLE and v is not None and not v.failures:
             # the abstract reader of Model/History*.lean – the object the history theorems are about – does not allow
